@@ -106,20 +106,32 @@ def run_case(case):
     done_ops = []
     try:
         if case.get('wrap'):
-            first = issue(1, 1)
-            first['lost'] = False
+            # a few requests with adjacent ids stay outstanding while the 16-bit id space wraps
+            olds = []
+            for _ in range(case.get('outstanding', 3)):
+                o = issue(1, 1)
+                o['lost'] = False
+                olds.append(o)
             n = case['wrap']
             for i in range(n):
                 r = issue(1 + i % 200, 1)
                 r['lost'] = False
-                if first['tid'] == r['tid'] and not first['delivered']:
-                    discs.append(Disc('tid-reused-while-outstanding', 'request %d reuses transaction id %d of request 0 which is still outstanding' % (r['idx'], r['tid'])))
+                clash = [o for o in olds if o['tid'] == r['tid']]
+                if clash:
+                    discs.append(Disc('tid-reused-while-outstanding', 'request %d reuses transaction id %d of request %d which is still outstanding' % (r['idx'], r['tid'], clash[0]['idx'])))
                     break
                 feed(r['frame'], 'reply')
                 r['delivered'] = 1
                 if len(r['fired']) != 1:
                     discs.append(Disc('not-fired', 'request %d (tid %r) did not fire on its reply' % (r['idx'], r['tid'])))
                     break
+            if not discs:
+                for o in olds:
+                    feed(o['frame'], 'late reply of a long-outstanding request')
+                    if len(o['fired']) != 1 or list(getattr(o['fired'][0], 'registers', [])) != o['regs']:
+                        discs.append(Disc('reply-not-matched', 'long-outstanding request %d (tid %r) fired %d times with %r after the wrap' % (
+                            o['idx'], o['tid'], len(o['fired']), [getattr(f, 'registers', f) for f in o['fired']])))
+                        break
             labels.append('wrap-history')
             return Outcome(discs, labels, True)
         for op in case['ops']:
